@@ -213,6 +213,11 @@ from vc.core.leanstep import lean_step as _lean_step
 
 EXTRA = [_lean_step("Schedule.lean", "C08", ["after_end", "compose_true", "unique_end"])]
 CASES = [seed_case(), driver_case()]
+# the seam: the seed and a copy of the script reach the engine, and set-up leaves the caller's script as it was (C04's cases)
+from props import C04 as _C04
+for _sp in ("grid", "graph"):
+    for _rm in (False, True):
+        CASES.append(_C04.marshal_case(_sp, _rm))
 if z3 is not None:
     for _c in CLASSES:
         CASES.append(step_case(_c))
@@ -220,6 +225,10 @@ if z3 is not None:
     for _c in ("Euler3D", "GillespieGraph"):
         for _f in ("engineexport_iterate", "engineexport_iterate_n", "engineexport_run"):
             CASES.append(api_case(_f, _c))
+    # the deterministic engine's initial state does not depend on the seed: 'auto' and 'none' hand the state over unchanged
+    from props import C14 as _C14
+    for _sp in ("grid", "graph"):
+        CASES += [_C14.dispatch_case(_sp, "auto", "euler"), _C14.dispatch_case(_sp, "none", "euler")]
     for _c in ("EulerGraph", "TauLeap3D", "TauLeapGraph", "Gillespie3D"):       # thorough tier: the remaining classes
         for _f in ("engineexport_iterate", "engineexport_iterate_n", "engineexport_run"):
             _k = api_case(_f, _c)
